@@ -375,7 +375,16 @@ def run(case):
             c = int(case[3][1])
             t.mutate_parameter("pitch", lambda b: setattr(b, "v", b.v + c))
             ls = {o.oid: o for o in leaves(t)}
-            return ["ok"] + [[i, sval(getattr(ls[i], "pitch", Box(None)).v)] for i in sorted(ls)]
+            out = ["ok"] + [[i, sval(getattr(ls[i], "pitch", Box(None)).v)] for i in sorted(ls)]
+            # "once per distinct leaf" is about leaves, not about the objects they hold: all leaves share ONE object as
+            # another parameter (a dynamics marking used for the whole passage); the function is served once per distinct leaf
+            served = []
+            for o in ls.values():
+                o.marking = served
+            t.mutate_parameter("marking", lambda m: m.append(1))
+            if len(served) != len(ls):
+                out.append(["shared-parameter-object-served", len(served), "distinct-leaves", len(ls), "differs"])
+            return out
         if k == "getp":
             # every third read case (decided by the case text) stores tuple-valued parameters
             tuples = sum(map(ord, sx.show(case))) % 3 == 0
